@@ -29,6 +29,7 @@ type c18Cfg struct {
 	Flaw        string // "", unknown_field, wrong_type, not_json
 	Ext         string // chaincode-specific section: "" absent, "ok", "empty_addr"
 	NoSwaps     bool   // options.disable_swaps
+	NoMulti     bool   // options.disable_multi_swaps
 }
 
 func optStr(w c18Wallet) string {
@@ -43,7 +44,7 @@ func (v c18Cfg) term() string {
 	if v.HasToken {
 		tok = fmt.Sprintf("(Some (TConf %s %s %s %s))", optStr(v.Issuer), optStr(v.FeeSetter), optStr(v.FeeASetter), optStr(v.Redeemer))
 	}
-	return fmt.Sprintf("(CConf %s %s %s %s %s)", coqStr(v.Symbol), coqStr(v.Robot), optStr(v.Admin), tok, coqBool(v.NoSwaps))
+	return fmt.Sprintf("(CConf %s %s %s %s %s %s)", coqStr(v.Symbol), coqStr(v.Robot), optStr(v.Admin), tok, coqBool(v.NoSwaps), coqBool(v.NoMulti))
 }
 
 func (v c18Cfg) json() string {
@@ -59,8 +60,8 @@ func (v c18Cfg) json() string {
 		if v.Flaw == "wrong_type" {
 			c["symbol"] = 5
 		}
-		if v.NoSwaps {
-			c["options"] = map[string]interface{}{"disable_swaps": true}
+		if v.NoSwaps || v.NoMulti {
+			c["options"] = map[string]interface{}{"disable_swaps": v.NoSwaps, "disable_multi_swaps": v.NoMulti}
 		}
 		m["contract"] = c
 	}
@@ -173,7 +174,7 @@ func genC18(c *Ctx) error {
 				if rng.Intn(3) == 0 {
 					v.Symbol = []string{"TT", "AB9", "A1-9Z", "TT-1"}[rng.Intn(4)]
 				}
-				v.NoSwaps = rng.Intn(3) == 0
+				v.NoSwaps, v.NoMulti = rng.Intn(3) == 0, rng.Intn(3) == 0
 				for m := rng.Intn(3); m > 0; m-- {
 					switch rng.Intn(12) {
 					case 0:
@@ -220,6 +221,21 @@ func genC18(c *Ctx) error {
 			// probes
 			pr := w.Peer.Invoke(chName, w.Client.Creator, "sym")
 			refused := !pr.OK() && strings.Contains(pr.Message, "config bytes is empty")
+			if refused {
+				// without a stored configuration EVERY invocation is refused, the built-in functions included
+				emptyB, _ := proto.Marshal(&fpb.Batch{})
+				emptyT, _ := proto.Marshal(&fpb.ExecuteTasksRequest{})
+				for _, inv := range [][]string{{"createIndex", "Token"}, {"createIndex", "Allowed"}, {"batchExecute", string(emptyB)}, {"executeTasks", string(emptyT)},
+					{"swapDone", "00", "k"}, {"multiSwapDone", "00", "k"}, {"metadata"}, {"nameOfFiles"}} {
+					for _, cr := range [][]byte{w.Client.Creator, w.Robot.Creator} {
+						r := w.Peer.Invoke(chName, cr, inv[0], inv[1:]...)
+						if r.OK() || !strings.Contains(r.Message, "config bytes is empty") {
+							refused = false
+							c.Count("served_without_configuration_" + inv[0])
+						}
+					}
+				}
+			}
 			symbol := ""
 			if pr.OK() {
 				_ = json.Unmarshal(pr.Payload, &symbol)
@@ -245,7 +261,28 @@ func genC18(c *Ctx) error {
 					offTask = taskObs(out.Resp.GetTxResponses()[0].GetError().GetError()) == "ONotFound"
 				}
 			}
-			probe := fmt.Sprintf("(Probe %s %s %s %s %s)", coqBool(refused), coqStr(symbol), coqStr(robotKey), coqBool(offDirect), coqBool(offTask))
+			// ... and a robot batch carrying one swap answer and one multi-swap answer (simulated, not committed)
+			offBatchS, offBatchM := false, false
+			if id := robots[robotKey]; !refused && id != nil {
+				sid, mid := make([]byte, 32), make([]byte, 32)
+				sid[0], mid[0] = 0xa1, 0xa2
+				stranger := w.Issuer
+				b := &fpb.Batch{
+					Swaps:      []*fpb.Swap{{Id: sid, Owner: stranger.Addr, Token: "VT", Amount: []byte{5}, From: "VT", To: v0Symbol(symbol), Hash: make([]byte, 32)}},
+					MultiSwaps: []*fpb.MultiSwap{{Id: mid, Owner: stranger.Addr, Token: "VT", Assets: []*fpb.Asset{{Group: "VT_1", Amount: []byte{5}}}, From: "VT", To: v0Symbol(symbol), Hash: make([]byte, 32)}},
+				}
+				data, _ := proto.Marshal(b)
+				sim, _ := w.Peer.Simulate(chName, w.Peer.NextTxID(), id.Creator, false, strArgs("batchExecute", []string{string(data)}))
+				offBatchS, offBatchM = true, true
+				for _, wr := range sim.Writes {
+					if ot, _, ok := splitComposite(wr.Key); ok && ot == "swaps" {
+						offBatchS = false
+					} else if ok && ot == "multi_swap" {
+						offBatchM = false
+					}
+				}
+			}
+			probe := fmt.Sprintf("(Probe %s %s %s %s %s %s %s)", coqBool(refused), coqStr(symbol), coqStr(robotKey), coqBool(offDirect), coqBool(offTask), coqBool(offBatchS), coqBool(offBatchM))
 			steps = append(steps, fmt.Sprintf("Step %s %s %s %s %s", coqBool(cr.admin), argTerm, coqBool(res.OK()), coqBool(changed), probe))
 			jsteps = append(jsteps, map[string]interface{}{"creator": cr.name, "arg": desc, "accepted": res.OK(), "message": res.Message, "probe_symbol": symbol, "probe_refused": refused})
 			if res.OK() {
@@ -263,3 +300,11 @@ func genC18(c *Ctx) error {
 }
 
 func init() { props["C18"] = genC18 }
+
+// the name a robot would put into the destination field: the symbol in force (any non-empty name does)
+func v0Symbol(symbol string) string {
+	if symbol == "" || strings.HasPrefix(symbol, "PROBE") {
+		return "TT"
+	}
+	return symbol
+}
